@@ -28,6 +28,7 @@ type KSCase struct {
 	Extra   int        `json:"shareExtraLevels"` // shares are allocated Extra levels above the ciphertext (clamped)
 	InPlace bool       `json:"inPlace"`          // KeySwitch(ct, share, ct)
 	Shallow bool       `json:"shallow"`          // parties use ShallowCopy()s of one protocol instance
+	Level2  int        `json:"level2"`           // level of a second ciphertext sent through the same protocol instances, keys and receiver (-1: none)
 }
 
 func (c KSCase) RandSeed() uint64 { return c.Seed }
@@ -51,6 +52,10 @@ func genKS(t *rapid.T) KSCase {
 	}
 	c.InPlace = rapid.Bool().Draw(t, "inPlace")
 	c.Shallow = rapid.Bool().Draw(t, "shallow")
+	c.Level2 = -1
+	if rapid.Bool().Draw(t, "second") {
+		c.Level2 = rapid.IntRange(0, len(c.Params.Q)-1).Draw(t, "level2")
+	}
 	return c
 }
 
@@ -77,21 +82,56 @@ func toCoeffs(r *ring.Ring, p ring.Poly, ntt bool) []*big.Int {
 
 const minSmudgeSamples = 2048
 
+// ksState holds what persists between the ciphertexts of one case: keys, protocol instances, the previous output.
+type ksState struct {
+	in, outKeys *keySet
+	skOut       *rlwe.SecretKey
+	pkOut       *rlwe.PublicKey
+	cks         *multiparty.KeySwitchProtocol
+	cksInst     []multiparty.KeySwitchProtocol
+	pcks        *multiparty.PublicKeySwitchProtocol
+	pcksInst    []multiparty.PublicKeySwitchProtocol
+	prevOut     *rlwe.Ciphertext
+	snaps       []ring.Poly // secret keys / public key as they were after key generation
+}
+
 func runKS(c KSCase, rec *h.Rec) error {
-	if c.Parties < 1 || c.Parties > 8 || !validMerges(c.Merges, c.Parties) || c.Level < 0 || c.Level >= len(c.Params.Q) || c.Sigma <= 0 || c.Extra < 0 {
+	if c.Parties < 1 || c.Parties > 8 || !validMerges(c.Merges, c.Parties) || c.Level < 0 || c.Level >= len(c.Params.Q) || c.Sigma <= 0 || c.Extra < 0 || c.Level2 >= len(c.Params.Q) {
 		return nil // outside the generated domain (hand-edited case)
 	}
+	st := &ksState{}
+	if err := runKSRound(c, rec, st, c.Level, c.Seed, true); err != nil {
+		return err
+	}
+	if c.Level2 >= 0 {
+		if err := runKSRound(c, rec, st, c.Level2, c.Seed^0x9e3779b97f4a7c15, false); err != nil {
+			if fe, ok := err.(*h.Failure); ok {
+				fe.Msg = "[second ciphertext through the same protocol instances] " + fe.Msg
+			}
+			return err
+		}
+	}
+	return nil
+}
+
+func runKSRound(c KSCase, rec *h.Rec, st *ksState, level int, seed uint64, first bool) error {
 	params, err := c.Params.Build()
 	if err != nil {
 		return nil // literal rejected by lattigo: nothing to test (other properties cover parameter validation)
 	}
 	n := c.Parties
-	level := c.Level
 	ringQ := params.RingQ().AtLevel(level)
 	N := params.N()
-	rng := h.NewSplitMix(c.Seed)
+	rng := h.NewSplitMix(seed)
 
-	in := newKeySet(params, n, nil)
+	if st.in == nil {
+		ks := newKeySet(params, n, nil)
+		st.in = &ks
+	}
+	in := *st.in
+	if !first {
+		rec = &h.Rec{} // classes and the non-trivial descriptor are booked by the first ciphertext only
+	}
 
 	// plaintext: uniformly random element of R_Q at the level (the protocol is linear, the oracle exact up to noise)
 	pt := rlwe.NewPlaintext(params, level)
@@ -112,9 +152,12 @@ func runKS(c KSCase, rec *h.Rec) error {
 	var boundParty float64 // hard bound on the noise one party adds
 	var target *rlwe.SecretKey
 	var out *rlwe.Ciphertext
-	if c.InPlace {
+	switch {
+	case c.InPlace:
 		out = ct
-	} else {
+	case st.prevOut != nil:
+		out = st.prevOut // receiver with a history: the output of the previous ciphertext
+	default:
 		out = rlwe.NewCiphertext(params, 1, rapidLevel(rng, params.MaxLevel()))
 	}
 
@@ -126,6 +169,7 @@ func runKS(c KSCase, rec *h.Rec) error {
 	}
 
 	var pools smudgePools
+	pools.off = !statsCase(c.Seed)
 	cls := func(i int) int {
 		if i == 0 || !c.Shallow {
 			return 0
@@ -153,29 +197,40 @@ func runKS(c KSCase, rec *h.Rec) error {
 
 	if c.Target != "pk" {
 		// ---- secret-key target ------------------------------------------------------------------------------------
-		outKeys := newKeySet(params, n, func(i int) bool {
+		if st.outKeys == nil {
+			ks := newKeySet(params, n, func(i int) bool {
 			switch c.Target {
 			case "zero":
 				return true
 			case "mixed":
 				return i%2 == 1
 			}
-			return false
-		})
+				return false
+			})
+			st.outKeys = &ks
+		}
+		outKeys := *st.outKeys
 		target = outKeys.ideal
 
-		p0, err := multiparty.NewKeySwitchProtocol(params, noise)
-		if err != nil {
-			return h.Failf("C16:NewKeySwitchProtocol:error", "%v", err)
+		if st.cks == nil {
+			p, err := multiparty.NewKeySwitchProtocol(params, noise)
+			if err != nil {
+				return h.Failf("C16:NewKeySwitchProtocol:error", "%v", err)
+			}
+			st.cks = &p
+			for i := 0; i < n; i++ {
+				if i == 0 || !c.Shallow {
+					st.cksInst = append(st.cksInst, p)
+				} else {
+					st.cksInst = append(st.cksInst, p.ShallowCopy())
+				}
+				st.snaps = append(st.snaps, *in.shares[i].Value.Q.CopyNew(), *outKeys.shares[i].Value.Q.CopyNew())
+			}
 		}
+		p0 := *st.cks
 		eSigma := math.Sqrt(params.NoiseFreshSK()*params.NoiseFreshSK() + c.Sigma*c.Sigma)
 		boundParty = math.Floor(6*eSigma+0.5) + 1
-		proto := func(i int) multiparty.KeySwitchProtocol {
-			if i == 0 || !c.Shallow {
-				return p0
-			}
-			return p0.ShallowCopy()
-		}
+		proto := func(i int) multiparty.KeySwitchProtocol { return st.cksInst[i] }
 
 		residual := func(i int, sh multiparty.KeySwitchShare) []*big.Int {
 			delta := ringQ.NewPoly()
@@ -239,7 +294,7 @@ func runKS(c KSCase, rec *h.Rec) error {
 
 		// smudging statistics: more shares from party 0's key until enough samples are pooled, separately for the instance
 		// built by the constructor and for instances obtained through ShallowCopy (alternating copy and copy-of-copy)
-		for pools.short(0) {
+		for first && pools.short(0) {
 			sh := p0.AllocateShare(level)
 			p0.GenShare(in.shares[0], outKeys.shares[0], ctOrig, &sh)
 			if err := collect(0, residual(0, sh), boundParty, "C16:KeySwitch:GenShare:noise-above-bound"); err != nil {
@@ -248,7 +303,7 @@ func runKS(c KSCase, rec *h.Rec) error {
 		}
 		pc := p0.ShallowCopy()
 		pcc := pc.ShallowCopy()
-		for k := 0; pools.short(1); k++ {
+		for k := 0; first && pools.short(1); k++ {
 			px := pc
 			if k%2 == 1 {
 				px = pcc
@@ -261,24 +316,31 @@ func runKS(c KSCase, rec *h.Rec) error {
 		}
 	} else {
 		// ---- public-key target ------------------------------------------------------------------------------------
-		kg := rlwe.NewKeyGenerator(params)
-		skOut, pkOut := kg.GenKeyPairNew()
-		target = skOut
-
-		p0, err := multiparty.NewPublicKeySwitchProtocol(params, noise)
-		if err != nil {
-			return h.Failf("C16:NewPublicKeySwitchProtocol:error", "%v", err)
+		if st.pcks == nil {
+			kg := rlwe.NewKeyGenerator(params)
+			st.skOut, st.pkOut = kg.GenKeyPairNew()
+			p, err := multiparty.NewPublicKeySwitchProtocol(params, noise)
+			if err != nil {
+				return h.Failf("C16:NewPublicKeySwitchProtocol:error", "%v", err)
+			}
+			st.pcks = &p
+			for i := 0; i < n; i++ {
+				if i == 0 || !c.Shallow {
+					st.pcksInst = append(st.pcksInst, p)
+				} else {
+					st.pcksInst = append(st.pcksInst, p.ShallowCopy())
+				}
+				st.snaps = append(st.snaps, *in.shares[i].Value.Q.CopyNew(), *st.pkOut.Value[0].Q.CopyNew())
+			}
 		}
+		skOut, pkOut := st.skOut, st.pkOut
+		target = skOut
+		p0 := *st.pcks
 		bs, be := distBound(c.Params.Xs), distBound(c.Params.Xe)
 		l1 := h.SecretL1(c.Params.Xs, N)
 		// u*e_pk + e0 + e1*s_out (+ rounding of the division by P: 1/2 + |s_out|_1/2, rounded up) + smudging
 		boundParty = float64(N)*bs*be + be + be*l1 + 1 + l1 + math.Floor(6*c.Sigma+0.5) + 1
-		proto := func(i int) multiparty.PublicKeySwitchProtocol {
-			if i == 0 || !c.Shallow {
-				return p0
-			}
-			return p0.ShallowCopy()
-		}
+		proto := func(i int) multiparty.PublicKeySwitchProtocol { return st.pcksInst[i] }
 		residual := func(i int, sh multiparty.PublicKeySwitchShare) []*big.Int {
 			// share0 + share1*s_out - c1*s_i
 			a, b := ringQ.NewPoly(), ringQ.NewPoly()
@@ -327,7 +389,7 @@ func runKS(c KSCase, rec *h.Rec) error {
 		}
 		p0.KeySwitch(ct, agg, out)
 
-		for pools.short(0) {
+		for first && pools.short(0) {
 			sh := p0.AllocateShare(level)
 			p0.GenShare(in.shares[0], pkOut, ctOrig, &sh)
 			if err := collect(0, residual(0, sh), boundParty, "C16:PublicKeySwitch:GenShare:noise-above-bound"); err != nil {
@@ -336,7 +398,7 @@ func runKS(c KSCase, rec *h.Rec) error {
 		}
 		pc := p0.ShallowCopy()
 		pcc := pc.ShallowCopy()
-		for k := 0; pools.short(1); k++ {
+		for k := 0; first && pools.short(1); k++ {
 			px := pc
 			if k%2 == 1 {
 				px = pcc
@@ -388,21 +450,36 @@ func runKS(c KSCase, rec *h.Rec) error {
 
 	// ---- smudging noise lower bound ---------------------------------------------------------------------------------
 	// residuals are centred mod Q: only meaningful when the hard bound is far below Q/2
-	if discriminating {
+	if first && discriminating {
 		if err := pools.check(c.Sigma, 1, "C16:"+proto+":GenShare:smudging-too-small", rec); err != nil {
 			return err
+		}
+	}
+	st.prevOut = out
+
+	// keys are inputs: bit-identical to what key generation produced
+	for i := 0; i < n; i++ {
+		second := st.pkOut != nil
+		var cur ring.Poly
+		if second {
+			cur = st.pkOut.Value[0].Q
+		} else {
+			cur = st.outKeys.shares[i].Value.Q
+		}
+		if !in.shares[i].Value.Q.Equal(&st.snaps[2*i]) || !cur.Equal(&st.snaps[2*i+1]) {
+			return h.Failf("C16:"+proto+":keys-modified", "the protocol modified a secret-key share or the target key of party %d", i)
 		}
 	}
 
 	if discriminating {
 		nontrivialOrder := n >= 2 && !canonicalMerges(c.Merges, n)
-		if nontrivialOrder || level < params.MaxLevel() {
+		if nontrivialOrder || level < params.MaxLevel() || c.Level2 >= 0 {
 			szc := "small"
 			if bits.Len64(c.Params.Q[0]) > 45 {
 				szc = "big"
 			}
-			rec.NonTrivial(fmt.Sprintf("ks|%s|n=%d|ord=%v|lvl=%d/%d|%s|ntt=%v|%v|extra=%v|inplace=%v|shallow=%v|P=%d|q0=%s", c.Target, n, nontrivialOrder, level, params.MaxLevel(),
-				sigmaClass(c.Sigma), params.NTTFlag(), params.RingType(), c.Extra > 0, c.InPlace, c.Shallow, len(c.Params.P), szc))
+			rec.NonTrivial(fmt.Sprintf("ks|%s|n=%d|ord=%v|lvl=%d/%d|%s|ntt=%v|%v|extra=%v|inplace=%v|shallow=%v|P=%d|q0=%s|second=%v", c.Target, n, nontrivialOrder, level, params.MaxLevel(),
+				sigmaClass(c.Sigma), params.NTTFlag(), params.RingType(), c.Extra > 0, c.InPlace, c.Shallow, len(c.Params.P), szc, c.Level2 >= 0))
 		}
 	}
 	return nil
@@ -411,6 +488,6 @@ func runKS(c KSCase, rec *h.Rec) error {
 // rapidLevel picks a level for a pre-allocated output ciphertext (KeySwitch must resize it).
 func rapidLevel(rng *h.SplitMix, max int) int { return rng.Intn(max + 1) }
 
-var propKS = h.NewProp("TestPropKeySwitch", h.Budget{Quick: 1200, Thorough: 20000}, genKS, runKS)
+var propKS = h.NewProp("TestPropKeySwitch", h.Budget{Quick: 1000, Thorough: 5000}, genKS, runKS)
 
 func TestPropKeySwitch(t *testing.T) { propKS.Check(t) }
